@@ -434,6 +434,39 @@ fn run(ctx: &mut Ctx) {
         }
         judge_history(ctx, &calls, &["fa", "fb", "fc", "_fd", "Fa", "if"], &sn, "random-long-histories");
     }
+    // many distinct names (dozens of rules, functions and symbols in one builder): prefixes of each other,
+    // case variants, trailing whitespace, composed vs decomposed accents, long names
+    let long_a: &'static str = leak(&"a".repeat(300));
+    let long_b: &'static str = leak(&format!("{}b", "a".repeat(299)));
+    let rn2: Vec<&'static str> = vec!["r", "r1", "r10", "r100", "r2", "R1", "r1 ", " r1", "r\u{e9}", "re\u{301}", "rule", "rules", "", " ", long_a, long_b, "x", "y", "z", "r3", "r4", "r5", "r6", "r7", "r8", "r9", "r11", "r12"];
+    let fn2: Vec<&'static str> = vec!["f", "f1", "f10", "f2", "fa", "fab", "fabc", "F1", "f\u{e9}", "fe\u{301}", "g", "g_", "_g", "g1_", long_a, long_b, "h1", "h2", "h3", "h4", "h5", "h6", "h7", "h8", "h9", "in", "int", "inty", "1f", "f-1"];
+    let sn2: Vec<&'static str> = vec!["s", "s1", "s10", "S", "s ", "t", "u", "v", "w", long_a];
+    for _ in 0..ctx.tier.of(400, 4_000) {
+        let len = 30 + rng.below(90);
+        let mut calls: Vec<Call> = vec![];
+        let mut model = Model::default();
+        for _ in 0..len {
+            let c = match rng.below(6) {
+                0 => Call::Rule(rn2[rng.below(rn2.len())]),
+                1 => Call::Rules((0..1 + rng.below(4)).map(|_| rn2[rng.below(rn2.len())]).collect()),
+                2 => Call::Function(fn2[rng.below(fn2.len())]),
+                3 => Call::Functions((0..1 + rng.below(4)).map(|_| fn2[rng.below(fn2.len())]).collect()),
+                4 => Call::Symbol(sn2[rng.below(sn2.len())], rng.below(1000) as i128),
+                _ => Call::Symbols((0..1 + rng.below(12)).map(|_| (sn2[rng.below(sn2.len())], rng.below(1000) as i128)).collect()),
+            };
+            if model.clone().apply(&c).is_err() {
+                if rng.chance(1, 4) {
+                    let mut h = calls.clone();
+                    h.push(c);
+                    judge_history(ctx, &h, &fn2, &sn2, "many-names-refusal");
+                }
+                continue;
+            }
+            model.apply(&c).unwrap();
+            calls.push(c);
+        }
+        judge_history(ctx, &calls, &fn2, &sn2, "many-names");
+    }
     ctx.rng = rng;
     names(ctx);
 }
